@@ -47,6 +47,7 @@ class Planner:
         self.invalid = sorted(b for b in bps if bps[b]["expect"] == "reject")
         self.dep_heavy = sorted(b for b in bps if bps[b].get("dep_heavy"))
         self.edits = corpus["edits"]
+        self.ui = corpus.get("ui_apps", [])
         self.out = []
 
     def rng(self, label, i):
@@ -213,6 +214,43 @@ class Planner:
                  _ex(rng, bp, mode="check"), _ex(rng, bp)]
         self.add("broken_sdk", rng, steps)
 
+    def ui_sweep(self, i, apps):
+        """upstream UI-test applications: each one under two hash seeds, then --check, from a seeded
+        state of its output directory (as committed upstream / golden / one byte flipped)"""
+        rng = self.rng("ui", i)
+        steps = []
+        for a in apps:
+            bp = "ui:" + a["pkg"]
+            pre = rng.weighted([(4, "upstream"), (3, "flipped"), (1, "golden")])
+            if pre != "upstream":
+                steps.append({"op": "seed_outdir", "proj": "ui", "state": pre, "bp": bp, "toggles": [],
+                              "flip": {"draw": rng.below(1 << 30)}})
+            d = rng.weighted([(3, "diag.dot"), (1, None)])
+            steps.append(_ex(rng, bp, proj="ui", diag=d))
+            steps.append(_ex(rng, bp, proj="ui", diag=d))  # re-run on unchanged inputs, another hash seed
+            if a["expect"] == "accept" or rng.chance(1, 3):
+                steps.append(_ex(rng, bp, proj="ui", mode="check", diag=d if rng.chance(2, 3) else None))
+        self.add("ui_sweep", rng, steps, rng.weighted([(14, "warm"), (1, "toolchain")]))
+
+    def ui_mix(self, n_apps, per_history, rounds, want):
+        """`rounds` passes over a seeded selection of `n_apps` UI applications (all of them if n_apps is
+        None), biased towards the verdict class `want` the property cares most about"""
+        if not self.ui:
+            return
+        r = self.rng("ui-mix", 0)
+        pool = list(self.ui)
+        for rd in range(rounds):
+            # seeded shuffle
+            order = sorted(pool, key=lambda a: h64(self.seed, self.prop, self.tier, "ui-order", rd, a["pkg"]))
+            if n_apps is not None:
+                pref = [a for a in order if a["expect"] == want]
+                rest = [a for a in order if a["expect"] != want]
+                k = (2 * n_apps) // 3
+                order = pref[:k] + rest[:n_apps - min(k, len(pref))]
+            for j in range(0, len(order), per_history):
+                self.ui_sweep(1000 * rd + j, order[j:j + per_history])
+        del r
+
     def empty(self, i):
         rng = self.rng("empty", i)
         bp = rng.choice(self.valid)
@@ -246,6 +284,7 @@ class Planner:
                 self.empty(i)
             for i in range(3 if q else 28):
                 self.outpath(i)
+            self.ui_mix(24 if q else None, 3, 1 if q else 3, "accept")
             if not q:
                 for rep in range(1, 9):
                     for i, bp in enumerate(self.valid):
@@ -276,6 +315,7 @@ class Planner:
                 self.outpath(100 + i)
             for i in range(2 if q else 16):
                 self.broken_sdk(i)
+            self.ui_mix(24 if q else None, 3, 1 if q else 3, "reject")
             if not q:
                 for rep in range(1, 8):
                     for i, bp in enumerate(self.valid):
@@ -294,7 +334,8 @@ def needed_goldens(histories):
     """(bp, toggles tuple) pairs whose golden the oracles (or seed_outdir) will look up."""
     need = set()
     for h in histories:
-        tog = {"p0": set(h.get("init_toggles", {}).get("p0", ())), "p1": set(h.get("init_toggles", {}).get("p1", ()))}
+        tog = {"p0": set(h.get("init_toggles", {}).get("p0", ())), "p1": set(h.get("init_toggles", {}).get("p1", ())),
+               "ui": set()}
         for s in h["steps"]:
             if s["op"] == "edit":
                 tog[s.get("proj", "p0")] ^= {s["edit"]}
@@ -329,13 +370,25 @@ def uses_sibling(h):
     return False
 
 
-def assign_slots(histories, n_slots, n_sibling_slots):
+def uses_ui(h):
+    for s in h["steps"]:
+        if s.get("proj") == "ui" or (s.get("exec") or {}).get("proj") == "ui":
+            return True
+    return False
+
+
+def assign_slots(histories, n_slots, n_sibling_slots, n_ui_slots=8):
     """Deterministic longest-processing-time assignment. Returns {slot: [history, ...]}."""
     load = [0.0] * n_slots
     queues = {i: [] for i in range(n_slots)}
     order = sorted(histories, key=lambda h: (-estimate_cost(h), h["id"]))
     for h in order:
-        cands = range(min(n_sibling_slots, n_slots)) if uses_sibling(h) else range(n_slots)
+        if uses_sibling(h):
+            cands = range(min(n_sibling_slots, n_slots))
+        elif uses_ui(h):
+            cands = range(min(n_ui_slots, n_slots))
+        else:
+            cands = range(n_slots)
         best = min(cands, key=lambda s: (load[s], s))
         queues[best].append(h)
         load[best] += estimate_cost(h)
